@@ -119,7 +119,8 @@ InitProg ==
   \/ \E hy \in Lits : \E sh \in {"plain", "userinfo", "path", "evil"} : \E hp \in {<< >>, C81} : \E op \in {<< >>, P81, P82} :
         prog = Pr(hy[1] \o hp, O(sh, Http, hy[2], op))
   \* structured port variants on both sides x origin scheme (default port of the scheme or not)
-  \/ \E h \in HostsPort : \E y \in UVariants(h) : \E sh \in AuthShapes : \E sc \in Schemes : \E hp \in HostPorts : \E op \in OrgPorts :
+  \/ \E h \in HostsPort : \E y \in UVariants(h) : \E sh \in (IF Len(h) = 1 THEN AuthShapes ELSE {"plain"}) : \E sc \in Schemes :
+        \E hp \in HostPorts : \E op \in OrgPorts :
         prog = Pr(h \o hp, O(sh, sc, y, op))
   \/ \E hy \in Lits \cup {<<Dom, Dom>>} : \E sh \in {"plain", "path"} : \E sc \in Schemes : \E hp \in HostPorts : \E op \in OrgPorts :
         prog = Pr(hy[1] \o hp, O(sh, sc, hy[2], op))
